@@ -61,3 +61,44 @@ reg(Spec('C17', ['c17:C17'],
          rule='one evaluation = one simulated two-endpoint run (seeded workload + schedule + faults); '
               'non-trivial = at least one receive_data call on a direction that a byte/frame fault or the adversary '
               'had touched; distinct = distinct abstract traces (hash of per-step op/frame-type/outcome/event-type sequence)'))
+
+R_RUN = 'one evaluation = one simulated two-endpoint run (seeded workload + schedule + faults); '
+R_DISTINCT = '; distinct = distinct abstract traces (hash of the per-step op / frame-type / outcome / event-type sequence)'
+
+reg(Spec('C02', ['c02:C02'],
+         quick=[('DUPLEX', 1500), ('HDR', 1500), ('UPGRADE', 300), ('RACE', 500)],
+         thorough=[('DUPLEX', 30000), ('HDR', 30000), ('UPGRADE', 5000), ('RACE', 10000)],
+         rule=R_RUN + 'non-trivial = a header block of >= 2 fragments, padding, or priority fields was emitted' + R_DISTINCT))
+reg(Spec('C03', ['c03:C03'],
+         quick=[('FLOW', 2000), ('RACE', 800), ('DUPLEX', 800)],
+         thorough=[('FLOW', 40000), ('RACE', 15000), ('DUPLEX', 15000), ('CORRUPT', 10000)],
+         rule=R_RUN + 'non-trivial = a send at the window edge or a send above the window happened' + R_DISTINCT))
+reg(Spec('C04', ['c04:C04'],
+         quick=[('FLOW', 2000), ('RACE', 800), ('CORRUPT', 600), ('ADV', 600)],
+         thorough=[('FLOW', 40000), ('RACE', 15000), ('CORRUPT', 15000), ('ADV', 15000)],
+         rule=R_RUN + 'non-trivial = DATA delivered at/over a window edge, or a failing window-changing call' + R_DISTINCT))
+reg(Spec('C05', ['c05:C05'],
+         quick=[('FLOW', 2500), ('RACE', 1000)],
+         thorough=[('FLOW', 50000), ('RACE', 20000)],
+         overrides={'*': {'no_manual_winc': True}},
+         rule=R_RUN + 'non-trivial = an advertised window was driven to zero at least once' + R_DISTINCT))
+reg(Spec('C07', ['c07:C07'],
+         quick=[('ADV', 2000), ('CORRUPT', 1500), ('DUPLEX', 500)],
+         thorough=[('ADV', 50000), ('CORRUPT', 30000), ('DUPLEX', 10000), ('RACE', 10000)],
+         rule=R_RUN + 'non-trivial = events were produced from a direction touched by the adversary or a fault' + R_DISTINCT))
+reg(Spec('C18', ['c18:C18'],
+         quick=[('CORRUPT', 2000), ('ADV', 2000), ('DUPLEX', 300)],
+         thorough=[('CORRUPT', 50000), ('ADV', 50000), ('DUPLEX', 10000)],
+         rule=R_RUN + 'non-trivial = at least one connection error (receive_data raised ProtocolError)' + R_DISTINCT))
+reg(Spec('C19', ['c19:C19'],
+         quick=[('CLOSE', 2000), ('CORRUPT', 1000), ('ADV', 500)],
+         thorough=[('CLOSE', 40000), ('CORRUPT', 20000), ('ADV', 20000), ('RACE', 10000)],
+         rule=R_RUN + 'non-trivial = >= 3 calls and >= 1 received frame after the connection closed' + R_DISTINCT))
+reg(Spec('C26', ['c26:C26'],
+         quick=[('DUPLEX', 1200), ('CORRUPT', 1200), ('ADV', 1200)],
+         thorough=[('DUPLEX', 20000), ('CORRUPT', 20000), ('ADV', 20000)],
+         rule=R_RUN + 'non-trivial = several PINGs in one receive_data call, or PINGs on a faulted direction' + R_DISTINCT))
+reg(Spec('C29', ['c29:C29'],
+         quick=[('MISUSE', 2500), ('RACE', 500)],
+         thorough=[('MISUSE', 60000), ('RACE', 10000), ('CLOSE', 10000)],
+         rule=R_RUN + 'non-trivial = at least one public call raised' + R_DISTINCT))
